@@ -10,6 +10,7 @@ import (
 	"fmt"
 	"os"
 	"path/filepath"
+	"runtime"
 	"sort"
 	"sync"
 	"sync/atomic"
@@ -56,6 +57,11 @@ type ctl struct {
 	crash    string // "", "before", "after"
 	loadFail bool
 	writes   int
+
+	// gate of the next Load: after gateAfter injected resources the load signals entered and waits for gate
+	gate      chan struct{}
+	entered   chan struct{}
+	gateAfter int
 }
 
 // faultStore decorates a backing store with injected failures and crash points.
@@ -106,7 +112,38 @@ func (f *faultStore) Load(ctx context.Context, h inmem.LoadHandler) error {
 		return errors.New("injected load failure")
 	}
 
-	return f.inner.Load(ctx, h)
+	f.c.mu.Lock()
+	gate, entered, after := f.c.gate, f.c.entered, f.c.gateAfter
+	f.c.gate, f.c.entered = nil, nil
+	f.c.mu.Unlock()
+
+	if gate == nil {
+		return f.inner.Load(ctx, h)
+	}
+
+	n := 0
+	park := func() {
+		if entered != nil {
+			close(entered)
+			entered = nil
+
+			<-gate
+		}
+	}
+
+	err := f.inner.Load(ctx, func(typ resource.Type, r resource.Resource) error {
+		if n == after {
+			park()
+		}
+
+		n++
+
+		return h(typ, r)
+	})
+
+	park() // fewer resources than gateAfter: park at the end of the load
+
+	return err
 }
 
 var marshalers = []string{"pb", "enc", "zstd", "zstd-big", "enc-zstd", "zstd-enc"}
@@ -200,6 +237,27 @@ func (e *env) disk() []vh.KV {
 	return res
 }
 
+// diskOf reads the database file while no state is open (between close and open).
+func (e *env) diskOf() []vh.KV {
+	bs, err := bolt.NewBackingStore(func() (*bbolt.DB, error) {
+		return bbolt.Open(e.path, 0o600, &bbolt.Options{NoSync: true})
+	}, vh.Marshaler(e.m))
+	if err != nil {
+		e.t.Fatal(err)
+	}
+
+	old := e.bs
+	e.bs = bs
+	res := e.disk()
+	e.bs = old
+
+	if err = bs.Close(); err != nil {
+		e.t.Fatal(err)
+	}
+
+	return res
+}
+
 func (e *env) dump() []vh.KV {
 	all := vh.Dump(context.Background(), e.st, e.crs)
 	res := []vh.KV{}
@@ -270,6 +328,84 @@ func runBehaviour(t *testing.T, tr *vh.Trace, tid string, m string, beh []Step) 
 			emit(Line{Ev: "reopen", Contents: contents, Disk: e.disk()})
 		}
 
+		// restartRace: like restart, but the first access of the new state is made by two clients at once:
+		// client A's read is parked inside the backing store's Load (after `after` injected resources), client B
+		// then issues its request; B gets every chance to run before the load is released.
+		restartRace := func(variant int) {
+			e.close()
+
+			persisted := e.diskOf()
+			gate, entered := make(chan struct{}), make(chan struct{})
+
+			e.c.mu.Lock()
+			e.c.gate, e.c.entered, e.c.gateAfter = gate, entered, variant%2
+			e.c.mu.Unlock()
+
+			e.open()
+
+			type rr struct {
+				rq  vh.Req
+				cls string
+				out []vh.KV
+			}
+
+			run := func(rq vh.Req, ch chan rr) {
+				cls, _, out, _ := vh.Exec(context.Background(), e.st, rq, e.crs, 0)
+				ch <- rr{rq, cls, out}
+			}
+
+			reqA := vh.Req{Op: "list", K: vh.Key{NS: "n1", Typ: vh.IntType}, Exp: "any"}
+			reqB := vh.Req{Op: "list", K: vh.Key{NS: "n1", Typ: vh.StrType}, Exp: "any"}
+
+			switch {
+			case variant%3 == 1 && len(persisted) > 0:
+				reqB = vh.Req{Op: "get", K: persisted[len(persisted)-1].K, Exp: "any"}
+			case variant%3 == 2 && len(persisted) > 0:
+				kv := persisted[0]
+				reqB = vh.Req{Op: "create", K: kv.K, Owner: kv.V.Owner, Exp: "any", Obj: kv.V}
+			case variant%3 == 0:
+				reqB.K.Typ = vh.IntType
+			}
+
+			chA, chB := make(chan rr, 1), make(chan rr, 1)
+
+			go run(reqA, chA)
+			<-entered
+
+			go run(reqB, chB)
+
+			var b *rr
+
+			for i := 0; i < 20000 && b == nil; i++ {
+				runtime.Gosched()
+
+				select {
+				case x := <-chB:
+					b = &x
+				default:
+				}
+			}
+
+			early := b != nil
+
+			close(gate)
+
+			a := <-chA
+
+			if b == nil {
+				x := <-chB
+				b = &x
+			}
+
+			contents := e.dump()
+			e.watch()
+			synctest.Wait()
+			e.nev.Store(0)
+			emit(Line{Ev: "reopen", Contents: contents, Disk: e.disk()})
+			emit(Line{Ev: "raceread", Req: a.rq, Cls: a.cls, Out: a.out, Note: "client A (performed the load)"})
+			emit(Line{Ev: "raceread", Req: b.rq, Cls: b.cls, Out: b.out, Note: fmt.Sprintf("client B (concurrent first access; returned before the load finished: %v)", early)})
+		}
+
 		for i, s := range beh {
 			rq := s.Req
 			rq.K.NS = "n1"
@@ -335,6 +471,9 @@ func runBehaviour(t *testing.T, tr *vh.Trace, tid string, m string, beh []Step) 
 			case "loadFail":
 				emit(Line{Ev: "crash", Req: rq, During: false, Point: "between"})
 				restart(true)
+			case "crashRace":
+				emit(Line{Ev: "crash", Req: rq, During: false, Point: "between"})
+				restartRace(i)
 			}
 		}
 
